@@ -35,6 +35,14 @@ CLAIMED = {
    text="Partial (the verifier has no interleaving semantics): over a ghost lockset it is proved, for every function of lib/concurrent, that every read of Atom.Val holds Atom.Mutex and every write holds it in write mode, that every path releases what it locked, that no mutex is locked twice by one thread, and that reset!/deref/swap! have the stated sequential effect inside their critical section (reset! installs and returns its argument, deref returns the value, swap! installs and returns the result, an error leaves the lock released). lock/no-call-while-held (no lisp-running call while holding a lock taken by the function) fails for swap! and is a recorded known finding. 'As if one at a time, consistent with real time' follows from these per-thread obligations by the standard lock-atomicity argument, which is not mechanised.",
    note="sync.RWMutex as ghost lockset; M-LOCK meta-argument; swap!'s 'failing update leaves the atom unchanged' relies on Apply not touching an atom whose write lock the caller holds; gensym/memoize are lisp source and outside the verifier; Atom.LispPrint's unlocked read is reported under C11.",
    tech="contract-based deductive verification of the lock discipline over go/ssa VCs (ghost lockset; obligations lock/held-for-access, lock/balance, lock/no-self-deadlock, lock/no-call-while-held; sequential critical-section contracts), z3/cvc5; no interleaving semantics"),
+ "C10": dict(level="other", ref="DESIGN.md §4 C10",
+   text="Partial (no interleaving semantics): per-thread obligations. Proved: the goroutine started by NewFuture calls Apply exactly once and deposits exactly one outcome on every path (ghost counters); Future.Deref puts back on the same channel exactly the item it received and returns it (chan/redeposit); every store to Done/Cancelled stores true (flag/monotone); when the outcome is sent, from which moment a deref can return, Done is already true (publish/order; this failed on the pinned tree and was fixed); Cancel's sequential contract (no effect and the old Cancelled value on a finished future, both flags set and true returned otherwise). Recorded known findings: Done/Cancelled are accessed from several threads without any synchronisation (race/shared-field, 8 sites).",
+   note="Blocking, scheduling and the memory model are not modelled; 'every deref returns the same outcome' and 'never back from true to false' follow from the obligations by an argument over schedules that is not mechanised; the context cancel function is assumed not to touch the future.",
+   tech="contract-based deductive verification of per-thread obligations over go/ssa VCs: ghost event counters, chan/redeposit, flag/monotone, publish/order, race/shared-field, sequential contracts; z3/cvc5; no interleaving semantics"),
+ "C11": dict(level="other", ref="DESIGN.md §4 C11",
+   text="Partial (no interleaving semantics): race-freedom obligations on scopes. Proved for every function of package env: every access to the contents of Env.data holds Env.mu in the right mode or the scope is fresh and unpublished; the *NT methods are only called with the lock held (callee preconditions discharged at every call site, also in the evaluator's packages through C04/C05/C01 runs); Env.mu/data/outer are only assigned on fresh objects; every path releases what it locked; a scope's lock is only held while the lock of a strict ancestor is taken (lock/order with rank = outer-chain depth, which also rules out self-deadlock); the scope constructors return fresh scopes whose outer is the given scope. Recorded known finding: Atom.LispPrint reads Atom.Val without the atom's lock.",
+   note="M-NI (non-interference from race-freedom, fresh local scopes, immutable values C02) is a meta-argument; the package-level debugger flags (skip/outing1/outing2, written only under an installed Stepper) are not covered by an obligation; gensym/memoize are lisp source.",
+   tech="contract-based deductive verification of the lock discipline over go/ssa VCs (ghost lockset, guarded fields, lock/order by rank, field immutability, fresh-scope post-conditions); z3/cvc5; no interleaving semantics"),
 }
 
 NA_REASON_WIP = ("check under construction (the contract-based VC engine exists; this property's contracts are not wired yet): "
